@@ -3358,3 +3358,27 @@ Proof.
   destruct (run_changes_reach _ _ _ _ _ _ _ _ _ _ _ _ _ H Hin) as (c & e' & Hc & Ha).
   exists c, e', pid, s. auto.
 Qed.
+
+(* the changes of a refresh walk are the walk's changes with a replaced id put in *)
+Lemma refresh_changes_In : forall emax walk c,
+  In c (flat_map (refresh_changes emax) walk) ->
+  exists c0 r, In c0 walk /\ c = with_replaced c0 r.
+Proof.
+  intros emax walk c H. apply in_flat_map in H. destruct H as (c0 & Hc0 & Hin). unfold refresh_changes in Hin.
+  destruct (1 <? emax).
+  - apply in_map_iff in Hin. destruct Hin as (p & E & _). exists c0, (Some (p_lpid p)). auto.
+  - destruct Hin as [E|[]]. exists c0, None. auto.
+Qed.
+
+(* every announcement a route refresh queues is an advertisement of a destination of the walk,
+   with the walk's path list *)
+Theorem C09_refresh_announcements_are_advertised : forall x pol emax raddr cid walk e r ap d key nh a,
+  run_updates true x (lift_policy pol) emax raddr cid (flat_map (refresh_changes emax) walk) e = Ok r ->
+  pending_after ap (fst r) d key PNothing = PReach nh a ->
+  exists c0 rep e' pid s, In c0 walk /\ advertised x pol emax raddr cid (with_replaced c0 rep) e' d pid nh a s.
+Proof.
+  intros x pol emax raddr cid walk e r ap d key nh a H Hp.
+  destruct (C09_queued_announcements_are_advertised _ _ _ _ _ _ _ _ _ _ _ _ _ H Hp) as (c & e' & pid & s & Hc & Ha).
+  destruct (refresh_changes_In _ _ _ Hc) as (c0 & rep & Hc0 & E). subst c.
+  exists c0, rep, e', pid, s. auto.
+Qed.
